@@ -127,9 +127,29 @@ def seeded_cases() -> List[Dict]:
     return out
 
 
+ALL_PROPS = [f"C{i:02d}" for i in range(1, 21)]
+
+
+def twin_cases() -> List[Dict]:
+    """Behaviour-preserving refactorings (/verif/twins/<id>/patch.diff): every listed check must stay silent (exit 0)."""
+    out = []
+    root = VERIF / "twins"
+    if not root.is_dir():
+        return out
+    for d in sorted(root.iterdir()):
+        pp = d / "patch.diff"
+        if not pp.exists():
+            continue
+        meta = json.loads((d / "meta.json").read_text()) if (d / "meta.json").exists() else {}
+        props = meta.get("props") or ALL_PROPS
+        out.append({"id": f"twin-{d.name}", "prop": props[0], "props": list(props), "edits": [], "patch": str(pp),
+                    "expect": "T", "mention": None})
+    return out
+
+
 def load_cases(prop: Optional[str] = None) -> List[Dict]:
     from sa import mutants
-    cases = list(mutants.CASES) + seeded_cases()
+    cases = list(mutants.CASES) + seeded_cases() + twin_cases()
     if prop:
         cases = [c for c in cases if prop in (c.get("props") or [c.get("prop")])]
         # run each case only under the requested property
